@@ -7,7 +7,8 @@
    output: per executed epoch one `E …` dump line; after each fit `F …` (final dump, and whether stepping epoch by
    epoch agrees with the model's `fit`) and `LOG …` (events of that fit call, oldest first); `---` per block. -/
 import NdeVerif.Model.Solver
-open NdeVerif.Solver
+import NdeVerif.Model.Solution
+open NdeVerif.Solver NdeVerif.Solution
 
 def lossFormula (lossId : Nat) (θ : Int) (train : Bool) (idx : Nat) : Int :=
   ((θ * 7 + (idx : Int) * 13 + (lossId : Int) * 31 + (if train then 5 else 0)) % 11) * 6
@@ -67,6 +68,7 @@ structure DState where
   sched : List (Nat × Nat × List Action)
   call : Nat
   out : List String
+  sols : List (Option Sol) := []
 
 def schedFn (l : List (Nat × Nat × List Action)) : Nat → Nat → List Action :=
   fun c e => (l.filter (fun x => x.1 == c && x.2.1 == e)).flatMap (·.2.2)
@@ -80,7 +82,7 @@ def stepLoop (c : Cfg) (sched : Nat → Nat → List Action) (call : Nat) : Nat 
 def runOp (d : DState) (line : String) : DState :=
   match line.splitOn " " with
   | ["init", θ0, k, nT, nV, nM] =>
-    { d with s := init θ0.toInt! (parseKind k) nT.toNat! nV.toNat! nM.toNat!, nMetrics := nM.toNat!, ov := [], sched := [], call := 0 }
+    { d with s := init θ0.toInt! (parseKind k) nT.toNat! nV.toNat! nM.toNat!, nMetrics := nM.toNat!, ov := [], sched := [], call := 0, sols := [] }
   | ["override", t, i, v] => { d with ov := d.ov ++ [(t == "1", i.toNat!, v.toInt!)] }
   | "sched" :: c :: e :: acts => { d with sched := d.sched ++ [(c.toNat!, e.toNat!, parseActions acts)] }
   | ["fit", m] =>
@@ -93,6 +95,18 @@ def runOp (d : DState) (line : String) : DState :=
     let agree := dump s1 == dump s2 && s1.log == s2.log
     let log := " ".intercalate (s1.log.reverse.filterMap showEvent)
     { d with s := s1, call := d.call + 1, out := ("LOG " ++ log) :: (s!"F agree={agree} " ++ dump s1) :: out }
+  | ["getsol", cp, b] =>
+    let r := getSolution (cp == "1") (b == "1") d.s
+    { d with sols := d.sols ++ [r], out := (match r with | none => "SOL error" | some .live => "SOL live" | some (.frozen _) => "SOL frozen") :: d.out }
+  | ["evalsols"] =>
+    { d with out := ("EVAL " ++ " ".intercalate (d.sols.map fun o => match o with
+        | none => "x" | some sol => toString (evalθ d.s sol))) :: d.out }
+  | "shape" :: n :: np :: nr :: dims =>
+    let o := callShape n.toNat! (dims.map String.toNat!) (np == "1") (nr == "1")
+    let str := match o with
+      | .single sh npy => s!"single {sh} numpy={npy}"
+      | .many k sh npy => s!"many {k} {sh} numpy={npy}"
+    { d with out := ("SHAPE " ++ str) :: d.out }
   | _ => { d with out := ("bad-op " ++ line) :: d.out }
 
 partial def readAll (h : IO.FS.Stream) (acc : List String) : IO (List String) := do
@@ -101,7 +115,7 @@ partial def readAll (h : IO.FS.Stream) (acc : List String) : IO (List String) :=
 
 def main : IO Unit := do
   let ls ← readAll (← IO.getStdin) []
-  let mut d : DState := ⟨init 0 .plain 1 1 0, 0, [], [], 0, []⟩
+  let mut d : DState := ⟨init 0 .plain 1 1 0, 0, [], [], 0, [], []⟩
   for l in ls do
     if l == "---" then
       for o in d.out.reverse do IO.println o
